@@ -1,7 +1,157 @@
 package main
 
-// Replay: see replay_harness.go (property-level harnesses run against the real code through go test -overlay).
+import (
+	"fmt"
+	"os"
+	"os/exec"
+	"path/filepath"
+	"strings"
+	"time"
+)
 
-func tryReplay(P *Prog, v *Verdict, rep map[string]interface{}) bool { return false }
+// Replay: a refuted obligation whose failing instance can be turned into an input of the real code is replayed
+// against /repo's working tree: a harness from /verif/replay/<kind>/ is copied into a scratch module (outside /repo
+// and /verif, removed afterwards) that imports the real packages through a `replace` directive.
+//
+// Only obligations that carry a Witness (ground table facts, operator obligations with first-order operands) can
+// be replayed; for all others the VIOLATION line ends with no-failing-input-found and the replay file carries the
+// solver output.
 
-func runReplayTest(pkg, test string) (string, bool) { return "", true }
+var opSpelling = map[string]string{
+	"EQEQ": "==", "NEQ": "!=", "GE": ">=", "LE": "<=", "OROR": "||", "ANDAND": "&&", "NILCOALESCE": "??",
+	"SHIFTLEFT": "<<", "SHIFTRIGHT": ">>", "IN": " in ",
+}
+
+func spell(tok string) string {
+	if s, ok := opSpelling[tok]; ok {
+		return s
+	}
+	return strings.Trim(tok, "'")
+}
+
+// lrSources builds, for a table-lemma witness, the operator expression and its explicitly parenthesised form.
+func lrSources(w map[string]string) (src, paren string, ok bool) {
+	op, look := spell(w["op"]), spell(w["look"])
+	var cont string
+	switch w["look"] {
+	case "'('":
+		cont = "(z)"
+	case "'['":
+		cont = "[z]"
+	case "'.'":
+		cont = ".z"
+	case "'?'":
+		cont = " ? y : z"
+	default:
+		cont = " " + look + " z"
+	}
+	var head, last string
+	switch w["arity"] {
+	case "2":
+		head, last = op+" ", "a"
+	case "3":
+		head, last = "a "+op+" ", "b"
+	case "5":
+		head, last = "a ? b : ", "c"
+	default:
+		return "", "", false
+	}
+	src = head + last + cont
+	if w["expect"] == "reduce" {
+		paren = "(" + head + last + ")" + cont
+	} else {
+		paren = head + "(" + last + cont + ")"
+	}
+	return src, paren, true
+}
+
+// runHarness builds and runs /verif/replay/<kind>/main.go against P.RepoDir. Exit status 1 of the harness means
+// "violation reproduced on the real code".
+func runHarness(P *Prog, kind string, args []string) (out string, reproduced bool, err error) {
+	src := filepath.Join(verifDir, "replay", kind, "main.go")
+	data, err := os.ReadFile(src)
+	if err != nil {
+		return "", false, err
+	}
+	dir, err := os.MkdirTemp("", "govc-replay-")
+	if err != nil {
+		return "", false, err
+	}
+	defer os.RemoveAll(dir)
+	os.WriteFile(filepath.Join(dir, "main.go"), data, 0o644)
+	gomod := fmt.Sprintf("module replay\ngo 1.21\nrequire github.com/mattn/anko v0.0.0\nreplace github.com/mattn/anko => %s\n", P.RepoDir)
+	os.WriteFile(filepath.Join(dir, "go.mod"), []byte(gomod), 0o644)
+	if sum, err := os.ReadFile(filepath.Join(P.RepoDir, "go.sum")); err == nil {
+		os.WriteFile(filepath.Join(dir, "go.sum"), sum, 0o644)
+	}
+	env := append(os.Environ(), "GOFLAGS=-mod=mod", "GOPROXY=off", "GOSUMDB=off", "GOTOOLCHAIN=local")
+	build := exec.Command("go", "build", "-o", filepath.Join(dir, "harness"), ".")
+	build.Dir = dir
+	build.Env = env
+	if bo, err := build.CombinedOutput(); err != nil {
+		return string(bo), false, fmt.Errorf("harness build failed: %v", err)
+	}
+	cmd := exec.Command(filepath.Join(dir, "harness"), args...)
+	cmd.Dir = dir
+	cmd.Env = env
+	done := make(chan struct{})
+	var o []byte
+	var rerr error
+	go func() { o, rerr = cmd.CombinedOutput(); close(done) }()
+	select {
+	case <-done:
+	case <-time.After(60 * time.Second):
+		if cmd.Process != nil {
+			cmd.Process.Kill()
+		}
+		<-done
+		return string(o), false, fmt.Errorf("harness timed out")
+	}
+	if ee, ok := rerr.(*exec.ExitError); ok {
+		return string(o), ee.ExitCode() == 1, nil
+	}
+	return string(o), false, rerr
+}
+
+func tryReplay(P *Prog, v *Verdict, rep map[string]interface{}) bool {
+	w := v.Obl.Witness
+	if w == nil {
+		return false
+	}
+	switch w["kind"] {
+	case "lr":
+		src, paren, ok := lrSources(w)
+		if !ok {
+			return false
+		}
+		out, repro, err := runHarness(P, "lrtable", []string{src, paren})
+		rep["replay_harness"] = "/verif/replay/lrtable/main.go (scratch module with replace github.com/mattn/anko => " + P.RepoDir + ")"
+		rep["replay_args"] = []string{src, paren}
+		rep["replay_output"] = truncate(out, 8000)
+		if err != nil {
+			rep["replay_error"] = err.Error()
+		}
+		return repro
+	}
+	return false
+}
+
+// cmdReplayFile re-runs the harness recorded in a replay file.
+func replayFromFile(P *Prog, rep map[string]interface{}) (string, bool) {
+	h, _ := rep["replay_harness"].(string)
+	if h == "" {
+		return "", false
+	}
+	var args []string
+	if a, ok := rep["replay_args"].([]interface{}); ok {
+		for _, x := range a {
+			args = append(args, fmt.Sprint(x))
+		}
+	}
+	kind := filepath.Base(filepath.Dir(strings.Fields(h)[0]))
+	out, repro, err := runHarness(P, kind, args)
+	if err != nil {
+		out += "\n" + err.Error()
+	}
+	return out, repro
+}
